@@ -375,6 +375,7 @@ type runState struct {
 	section                 int
 	renames                 int
 	previews, imports, obsN int
+	chpassN                 int
 	faultArmed              bool
 }
 
@@ -1005,6 +1006,10 @@ func (rs *runState) exec(task, step int, op core.Op) {
 	case "wunlock":
 		if x.running {
 			rs.wunlock(step)
+		}
+	case "wchpass":
+		if x.running {
+			rs.wchpass(step, op)
 		}
 	case "observe":
 		rs.observe(step, op)
